@@ -154,6 +154,40 @@ fn check(case: &Case) -> Verdict {
     }
 }
 
+/// ultra-long runs (past 2^16 and 2^17 updates) of every single view, cloned after 70 000 updates: ints = [seed, len, shape]
+fn ultra_cases(tier: Tier) -> Vec<Case> {
+    let len = tier.pick(135_000usize, 1_100_000usize);
+    let mut out = vec![];
+    for n in [3usize, 16] {
+        for (w, o) in outers(&Spec::Echo, n).into_iter().enumerate() {
+            let shape = ((w + n) % 4) as i64;
+            out.push(Case { spec: Some(o), ints: vec![(0xC17_0000 + 977 * w + 13 * n) as i64, len as i64, shape], a: Rat(1, 1), ..Default::default() });
+        }
+    }
+    out
+}
+fn ultra_check(case: &Case) -> Verdict {
+    let spec = case.spec();
+    let (seed, len, shape) = (case.ints[0] as u64, case.ints[1] as usize, case.ints[2]);
+    let positive = spec.needs_positive_input();
+    if !(if positive { spec.domain_ok_positive_input() } else { spec.domain_ok_signed_input() }) {
+        return Verdict::Discard("tree outside the documented input domain".into());
+    }
+    let conv = |k: i64| (if positive { k.abs().max(1) } else { k }) as f64 / 8.0;
+    let xs: Vec<f64> = gen::ultra_stream(seed, len, shape).into_iter().map(conv).collect();
+    let ys: Vec<f64> = gen::ultra_stream(seed ^ 0xABCDEF, 400, 0).into_iter().map(conv).collect();
+    let p = 70_000.min(len / 2);
+    match guarded(|| run::<f64>(spec, &xs, &ys, p, seed)) {
+        Err(pn) if pn.contains("Can compare elements") => Verdict::Discard("a NaN reached Min/Max (left the domain)".into()),
+        Err(pn) => Verdict::fail(format!("C17/{}/f64|panic", spec.name()), format!("{}: {pn} (stream: seed {seed}, len {len}, shape {shape}, grid 1/8)", spec.show())),
+        Ok(Err(m)) => {
+            let (kind, rest) = m.split_once('|').unwrap_or(("value", &m));
+            Verdict::fail(format!("C17/{}/f64|{kind}", spec.name()), format!("{}: {rest} (stream: seed {seed}, len {len}, shape {shape}, grid 1/8; clone after {p} updates, continuation ultra_stream(seed ^ 0xABCDEF, 400, 0))", spec.show()))
+        }
+        Ok(Ok((cloned, nonconst))) => Verdict::pass(nonconst, vec![format!("shape_{shape}"), if cloned { "cloned_after_70000".into() } else { "clone_skipped(Add has no Clone)".to_string() }]),
+    }
+}
+
 fn with_streams(tree: BoxedStrategy<Spec>) -> BoxedStrategy<Case> {
     (tree, 0i64..2, any::<u32>())
         .prop_flat_map(|(spec, scalar, pattern)| {
@@ -184,6 +218,7 @@ pub fn clauses() -> Vec<Clause> {
     vec![
         Clause::generated("C17", "C17/singles", format!("every view type over Echo, N in 1..40, stream of 0..6N+24 values, clone position uniform over the stream, divergent continuation of 0..3N+8 values. {o}"), 8000, 200_000, |_t| with_streams(singles()), check).with_shard(500),
         Clause::generated("C17", "C17/pairs", format!("every (wrapper, inner) pair of the catalogue with windows 1..12. {o}"), 8000, 200_000, |_t| with_streams(pairs()), check).with_shard(500),
+        Clause::enumerated("C17", "C17/ultra/enumerated", "Enumerated: every view over Echo at N in {3, 16}, 135 000 values (thorough 1.1e6; past 2^16 and 2^17 updates) on the 1/8 grid (four stream shapes), f64; twins, repeated and sparse last() calls over the whole run, clone taken after 70 000 updates and fed the same and a different continuation. Same oracles.", ultra_cases, ultra_check).with_shard(8),
         Clause::generated("C17", "C17/chains", format!("random two-level trees incl. binary combinators. {o}"), 4000, 100_000, |t: Tier| with_streams(chain_strategy(t.pick(16, 48))), check).with_shard(500),
     ]
 }
